@@ -744,5 +744,46 @@ def rule_presurv(ctx):
                         lambda i: C.ANNEAL in i.construct, 3)
 
 
+def rule_pure(ctx):
+    """``inplace=False`` transformations work on a copy: after
+    ``tree = self if inplace else self.copy()`` (or before it) the state of ``self``
+    itself is never written or mutated directly."""
+    r = RuleResult("C02-PURE", "inplace=False transformations leave the original untouched", 8)
+    for f in tree_funcs(ctx, ctx.tier == "thorough"):
+        la = ctx.r.local_assignments(f)
+        work = None
+        for name, vals in la.items():
+            for v in vals:
+                if isinstance(v, ast.IfExp) and isinstance(v.test, ast.Name) and \
+                        v.test.id == "inplace" and isinstance(v.body, ast.Name):
+                    work = (name, v.body.id)
+        if work is None:
+            continue
+        wname, orig = work
+        key = ctx.key(f, "C02-PURE")
+        bad = None
+        for a in ctx.effects.direct(f)["access"]:
+            if a.recv == orig and a.kind in ("write", "mutate") and wname != orig:
+                bad = a
+                break
+        if bad is not None:
+            r.violation(key, bad.loc, f"`{orig}.{bad.attr}` is modified directly although the "
+                        f"transformation is supposed to work on `{wname}` (a copy unless "
+                        "inplace=True): with inplace=False the original tree is left in a "
+                        "half-updated state", stmt=C.unparse(C.enclosing_stmt(f, bad.node), 80))
+        else:
+            r.ok(key, f.loc, f"all state changes go through `{wname}`")
+    return r
+
+
+def rule_copy(ctx):
+    """Shared with C04-COPY: copying is one of the transformations of C02."""
+    from .c04 import rule_copy as src
+
+    return C.reuse_rule(ctx, src, "C04-COPY", "C02-COPY",
+                        "copy completeness / no state shared between a tree and its copy",
+                        lambda i: True, 20)
+
+
 RULES = [rule_keys, rule_deps, rule_lists, rule_closure, rule_root, rule_cores, rule_node,
-         rule_presurv]
+         rule_presurv, rule_pure, rule_copy]
